@@ -119,6 +119,19 @@ def collect(t, rnd):
         for a, b in pairs:
             obs.append({"k": "ratio", "a": list(a), "b": list(b), "ab6": fl(f_ratio(a, b), 1e6),
                         "ba6": fl(f_ratio(b, a), 1e6)})
+        # the colours handed over in ONE list object per side that the caller updates in place between calls (a colour buffer):
+        # the value passed decides, not the identity of the object it is passed in
+        buf_a, buf_b = [0, 0, 0], [0, 0, 0]
+        sub = pairs[:: max(1, len(pairs) // (1500 if t == "quick" else 20000))]
+        for j, (a, b) in enumerate(sub):
+            buf_b[:] = b
+            if j % 2:
+                buf_a[:] = a
+                obs.append({"k": "ratio", "a": list(a), "b": list(b), "ab6": fl(f_ratio(buf_a, buf_b), 1e6), "ba6": fl(f_ratio(buf_b, buf_a), 1e6)})
+            else:
+                obs.append({"k": "ratio", "a": list(a), "b": list(b), "ab6": fl(f_ratio(a, buf_b), 1e6), "ba6": fl(f_ratio(buf_b, a), 1e6)})
+            if f_lum and j % 5 == 0:
+                obs.append({"k": "lum", "c": list(b), "l8": fl(f_lum(buf_b), 1e8)})
     # ---- level function around every threshold (abstract points enumerated like the spec's PointLevel)
     pts = []
     for (n, d) in ((3, 1), (9, 2), (7, 1)):
